@@ -35,8 +35,261 @@ Theorem C12_classify_status_iff : forall g im m off, geom_sane g -> g_status_off
   (classify g im m off = RStatus <-> off = g_status_off g).
 Proof. exact classify_status_iff. Qed.
 
+(* ================================================================ the dirty bit INSIDE the image model (Model/VolStatus.v,
+   Proofs/VolStatusProofs.v).  The status byte is the byte of the device image at g_status_off (0x25 on FAT12/16); the latch is
+   Flags.fstat; [StatInv g im s]: the image carries the byte the latch believes is on the device (disk_byte), the latch is a
+   reachable one (st_inv), the mount byte is a byte.  [status_only g im im']: every byte but the status byte is equal.
+   The image-level operations of VolDir / VolFile / VolSession / VolRemove are wrapped ([vols_*], [sesss_*]): the unwrapped
+   operation, then set_dirty_flag(true) exactly when the code passes it (FsIoAdapter::write after a device write; File::write
+   before it, for every write of at least one byte; flush and entry write-back never). *)
+From FatVerif Require Import Model.Str Model.Time Model.Table Model.Fat Model.FileM Model.DirSlots Model.VolDir Model.VolFile
+  Model.VolSession Model.VolRemove Model.VolStatus Spec.ByteFile Proofs.TableProofs Proofs.FatProofs Proofs.DirSlotsProofs
+  Proofs.VolDirProofs Proofs.VolFileProofs Proofs.VolSessionProofs Proofs.VolRemoveProofs Proofs.VolStatusProofs
+  Proofs.VolSessionExamples Proofs.VolRemoveExamples Proofs.VolStatusExamples Proofs.VolDirFormat.
+From FatVerif Require Spec.Wf Model.Lfn.
+
+(* the byte written is the byte Model/Flags.v set_dirty_flag computes: encode(flags) | (mount_byte & !3) *)
+Theorem C12_vol_status_value : forall s d, flags_change s d = true ->
+  disk_byte (set_dirty_flag s d) = status_value (mount_byte s) d /\ mount_byte (set_dirty_flag s d) = mount_byte s.
+Proof. exact flags_change_true. Qed.
+
+(* FileSystem::set_dirty_flag on the image: only the status byte can change; the latch is Flags.set_dirty_flag's; bits 2-7 and
+   bit 1 (io_error) are the mount byte's; with [true] the dirty bit is on the device; with [false] the byte IS the mount byte;
+   when the flags are the current ones nothing is written *)
+Theorem C12_vol_set_dirty_flag : forall g im s d, StatInv g im s ->
+  let im' := fst (vol_set_dirty_flag g im s d) in let s' := snd (vol_set_dirty_flag g im s d) in
+  status_only g im im' /\ StatInv g im' s' /\ mount_byte s' = mount_byte s /\ s' = set_dirty_flag s d /\
+  img_get im' (g_status_off g) / 4 = mount_byte s / 4 /\
+  N.odd (img_get im' (g_status_off g) / 2) = N.odd (mount_byte s / 2) /\
+  (d = true -> N.odd (img_get im' (g_status_off g)) = true /\ sf_dirty (current s') = true) /\
+  (d = false -> img_get im' (g_status_off g) = mount_byte s) /\
+  (flags_change s d = false -> im' = im /\ s' = s).
+Proof. exact vol_set_dirty_flag_spec. Qed.
+
+Theorem C12_vol_mount_inv : forall g im, img_get im (g_status_off g) < 256 -> StatInv g im (vol_mount_status g im).
+Proof. exact mount_stat_inv. Qed.
+
+(* ANY wrapped operation ([im] before, [im1] the unwrapped result, [marks] = the code marks in it; the unwrapped operation leaves
+   the status byte alone, and changes nothing when the code does not mark): only the status byte differs from the unwrapped
+   image; whenever ANY byte changed - a FAT entry, a directory slot, file data - the dirty bit is set on the device and bits 1-7
+   are those of the mount-time byte; without a mark nothing at all is written *)
+Theorem C12_vol_marked : forall g marks im im1 s, StatInv g im s ->
+  img_get im1 (g_status_off g) = img_get im (g_status_off g) -> (marks = false -> img_same im im1) ->
+  let im2 := fst (marked g marks im1 s) in let s2 := snd (marked g marks im1 s) in
+  status_only g im1 im2 /\ StatInv g im2 s2 /\ mount_byte s2 = mount_byte s /\
+    img_get im2 (g_status_off g) / 4 = mount_byte s / 4 /\
+    N.odd (img_get im2 (g_status_off g) / 2) = N.odd (mount_byte s / 2) /\
+    ((exists a, img_get im1 a <> img_get im a) ->
+       N.odd (img_get im2 (g_status_off g)) = true /\ sf_dirty (current s2) = true) /\
+    (marks = true -> N.odd (img_get im2 (g_status_off g)) = true /\ sf_dirty (current s2) = true) /\
+    (marks = false -> im2 = im1 /\ s2 = s).
+Proof. exact marked_spec. Qed.
+
+(* THE TRANSFER LEMMA: the independent decoder and the well-formedness check do not see the status byte - except v_status.  So
+   every decode theorem about an unwrapped operation (the C01_vol_ / C04_session_ / C05_vol_ families) holds of the wrapped one, and the
+   premises those theorems need (geometry, wf_issues = [], count_free, root slots, FAT values, data) hold of a dirty image iff
+   they hold of the clean one.  [fatsz16_set im]: BPB_FATSz16 <> 0, as on every FAT12/16 volume (otherwise the decoder would
+   read offset 0x25 as part of the 32-bit FAT size). *)
+Theorem C12_vol_abs_ignores_status : forall im im' g, fixed_root_geom g -> status_only g im im' ->
+  parse_geom im = g -> fatsz16_set im -> forall fold,
+  parse_geom im' = parse_geom im /\
+  v_root (abs im') = v_root (abs im) /\ v_root_issues (abs im') = v_root_issues (abs im) /\
+  v_labels (abs im') = v_labels (abs im) /\ v_geom (abs im') = v_geom (abs im) /\
+  v_root_chain (abs im') = v_root_chain (abs im) /\
+  v_fsinfo_free (abs im') = v_fsinfo_free (abs im) /\ v_fsinfo_next (abs im') = v_fsinfo_next (abs im) /\
+  v_status (abs im') = img_get im' (g_status_off g) /\ v_status (abs im) = img_get im (g_status_off g) /\
+  Wf.wf_issues fold im' = Wf.wf_issues fold im /\ Abs.count_free g im' = Abs.count_free g im /\
+  root_region_slots g im' = root_region_slots g im /\
+  (forall c, fat_val g im' c = fat_val g im c) /\ (forall c, cluster_bytes g im' c = cluster_bytes g im c).
+Proof. exact abs_status_only. Qed.
+
+(* ... and the file-layer invariant and the decoder's view of an open file *)
+Theorem C12_vol_file_inv_ignores_status : forall im im' g, fixed_root_geom g -> status_only g im im' -> forall fi h sz l,
+  img_get im' (g_status_off g) < 256 -> VolInv g im fi h sz l ->
+  VolInv g im' fi h sz l /\ vol_content g im' l sz = vol_content g im l sz.
+Proof. exact so_vol_inv. Qed.
+
+(* ---- the wrapped operations *)
+(* create_file in the root: marked iff the entry was created *)
+Theorem C12_vol_create : forall upper oem im s name now,
+  let g := parse_geom im in
+  fixed_root_geom g -> StatInv g im s ->
+  exists r im1 im2 s2,
+    vol_create_empty_file_root upper oem im name now = (r, im1) /\
+    vols_create_empty_file_root upper oem im s name now = (r, im2, s2) /\
+    status_only g im1 im2 /\ StatInv g im2 s2 /\ mount_byte s2 = mount_byte s /\
+    img_get im2 (g_status_off g) / 4 = mount_byte s / 4 /\
+    N.odd (img_get im2 (g_status_off g) / 2) = N.odd (mount_byte s / 2) /\
+    ((exists a, img_get im1 a <> img_get im a) ->
+       N.odd (img_get im2 (g_status_off g)) = true /\ sf_dirty (current s2) = true) /\
+    (created r = true -> N.odd (img_get im2 (g_status_off g)) = true /\ sf_dirty (current s2) = true) /\
+    (created r = false -> im2 = im1 /\ s2 = s).
+Proof. exact vols_create_spec. Qed.
+
+(* remove of a cluster-less file: marked iff Ok *)
+Theorem C12_vol_remove_empty : forall upper oem im s name r im1,
+  let g := parse_geom im in
+  fixed_root_geom g -> StatInv g im s -> vol_remove_empty_file_root upper oem im name = Some (r, im1) ->
+  exists im2 s2, vols_remove_empty_file_root upper oem im s name = Some (r, im2, s2) /\
+    status_only g im1 im2 /\ StatInv g im2 s2 /\ mount_byte s2 = mount_byte s /\
+    img_get im2 (g_status_off g) / 4 = mount_byte s / 4 /\
+    N.odd (img_get im2 (g_status_off g) / 2) = N.odd (mount_byte s / 2) /\
+    ((exists a, img_get im1 a <> img_get im a) ->
+       N.odd (img_get im2 (g_status_off g)) = true /\ sf_dirty (current s2) = true) /\
+    (res_ok r = true -> N.odd (img_get im2 (g_status_off g)) = true /\ sf_dirty (current s2) = true) /\
+    (res_ok r = false -> im2 = im1 /\ s2 = s).
+Proof. exact vols_remove_empty_spec. Qed.
+
+(* rename in the root: marked iff the root region changed (not in the no-op branch, not on failure) *)
+Theorem C12_vol_rename : forall upper oem im s src dst r im1,
+  let g := parse_geom im in
+  fixed_root_geom g -> StatInv g im s -> vol_rename_in_root upper oem im src dst = Some (r, im1) ->
+  exists im2 s2 wrote, vols_rename_in_root upper oem im s src dst = Some (r, im2, s2) /\
+    (status_only g im1 im2 /\ StatInv g im2 s2 /\ mount_byte s2 = mount_byte s /\
+    img_get im2 (g_status_off g) / 4 = mount_byte s / 4 /\
+    N.odd (img_get im2 (g_status_off g) / 2) = N.odd (mount_byte s / 2) /\
+    ((exists a, img_get im1 a <> img_get im a) ->
+       N.odd (img_get im2 (g_status_off g)) = true /\ sf_dirty (current s2) = true) /\
+    (wrote = true -> N.odd (img_get im2 (g_status_off g)) = true /\ sf_dirty (current s2) = true) /\
+    (wrote = false -> im2 = im1 /\ s2 = s)) /\
+    wrote = negb (slots_eqb (root_region_slots g im) (root_region_slots g im1)).
+Proof. exact vols_rename_spec. Qed.
+
+(* remove of a file with clusters (premises of C05_vol_remove_reclaims_all): Ok, marked *)
+Theorem C12_vol_remove_file : forall upper oem fold im fi s name ev,
+  let g := parse_geom im in
+  fixed_root_geom g -> FatProofs.bytes_ok im ->
+  fi_inv fstore (val_ft (ft_of g)) (store_of g im) fi (g_clusters g) ->
+  Wf.wf_issues fold im = [] -> Forall attrs_sane (root_region_slots g im) ->
+  root_lookup upper oem im name = Ok ev -> Lfn.ev_is_dir ev = false ->
+  list_eqb (Lfn.ev_raw_name ev) DOT || list_eqb (Lfn.ev_raw_name ev) DOTDOT = false ->
+  StatInv g im s ->
+  exists im1 fi1 im2 s2,
+    vol_remove_file_root upper oem im fi name = Some (Ok tt, im1, fi1) /\
+    vols_remove_file_root upper oem im fi s name = Some (Ok tt, im2, fi1, s2) /\
+    status_only g im1 im2 /\ StatInv g im2 s2 /\ mount_byte s2 = mount_byte s /\
+    img_get im2 (g_status_off g) / 4 = mount_byte s / 4 /\
+    N.odd (img_get im2 (g_status_off g) / 2) = N.odd (mount_byte s / 2) /\
+    ((exists a, img_get im1 a <> img_get im a) ->
+       N.odd (img_get im2 (g_status_off g)) = true /\ sf_dirty (current s2) = true) /\
+    (true = true -> N.odd (img_get im2 (g_status_off g)) = true /\ sf_dirty (current s2) = true) /\
+    (true = false -> im2 = im1 /\ s2 = s).
+Proof. exact vols_remove_file_spec. Qed.
+
+(* ... every other outcome of it: no status write, nothing at all *)
+Theorem C12_vol_remove_file_failed : forall upper oem im fi s name r im1 fi1,
+  vol_remove_file_root upper oem im fi name = Some (r, im1, fi1) -> r <> Ok tt ->
+  vols_remove_file_root upper oem im fi s name = Some (r, im, fi, s).
+Proof. exact vols_remove_file_failed. Qed.
+
+(* a file call the code does not mark (read, seek, a write of zero bytes, a truncate with nothing to cut, a failed truncate)
+   leaves image and FS-info latch exactly as they were - no premise *)
+Theorem C12_vol_step_unmarked : forall g im fi h o im' fi' h' r,
+  vol_step g (im, fi, h) o = ((im', fi', h'), r) -> step_marks (g_cluster_size g) h o r = false -> im' = im /\ fi' = fi.
+Proof. exact vol_step_unmarked. Qed.
+
+(* ONE FILE CALL, mounted: C02_image_step with the status byte inside the image *)
+Theorem C12_vol_file_step : forall g, fixed_root_geom g -> forall im fi h sz l s o,
+  op_ok o -> VolInv g im fi h sz l -> StatInv g im s ->
+  exists im1 fi1 h1 r im2 s2 sz' l',
+    vol_step g (im, fi, h) o = ((im1, fi1, h1), r) /\
+    vols_step g (im, fi, h) s o = ((im2, fi1, h1), s2, r) /\
+    (status_only g im1 im2 /\ StatInv g im2 s2 /\ mount_byte s2 = mount_byte s /\
+    img_get im2 (g_status_off g) / 4 = mount_byte s / 4 /\
+    N.odd (img_get im2 (g_status_off g) / 2) = N.odd (mount_byte s / 2) /\
+    ((exists a, img_get im1 a <> img_get im a) ->
+       N.odd (img_get im2 (g_status_off g)) = true /\ sf_dirty (current s2) = true) /\
+    (step_marks (g_cluster_size g) h o r = true -> N.odd (img_get im2 (g_status_off g)) = true /\ sf_dirty (current s2) = true) /\
+    (step_marks (g_cluster_size g) h o r = false -> im2 = im1 /\ s2 = s)) /\
+    VolInv g im2 fi1 h1 sz' l' /\
+    bf_step (vol_content g im l sz, h_off h) o r = Some (vol_content g im2 l' sz', h_off h1) /\
+    (step_marks (g_cluster_size g) h o r = false -> im2 = im /\ fi1 = fi /\ s2 = s).
+Proof. exact vols_step_spec. Qed.
+
+(* HISTORIES on a handle, mounted *)
+Theorem C12_vol_file_run : forall g, fixed_root_geom g -> forall ops im fi h sz l s,
+  Forall op_ok ops -> VolInv g im fi h sz l -> StatInv g im s ->
+  exists im' fi' h' s' rs sz' l',
+    vols_run g (im, fi, h) s ops = ((im', fi', h'), s', rs) /\
+    VolInv g im' fi' h' sz' l' /\ StatInv g im' s' /\ mount_byte s' = mount_byte s /\
+    bf_run (vol_content g im l sz, h_off h) ops rs = Some (vol_content g im' l' sz', h_off h') /\
+    chain_decodes g im' (h_first h') l'.
+Proof. exact vols_run_spec. Qed.
+
+(* the session machine's mounted step is the mounted file call on the (image, FS-info, handle) part of its state *)
+Theorem C12_vol_session_step : forall g acc st s on,
+  let '(st1, s1, _) := sesss_step g acc st s on in
+  let '((im2, fi2, h2), s2, _) := vols_step g (s_im st, s_fi st, s_h st) s (fst on) in
+  s_im st1 = im2 /\ s_fi st1 = fi2 /\ s_h st1 = h2 /\ s1 = s2.
+Proof. exact sesss_step_is_vols_step. Qed.
+
+(* READ-ONLY sequences (reads and seeks with any arguments and outcomes): image, FS-info latch and status latch untouched *)
+Theorem C12_vol_read_only_untouched : forall g ops im fi h s, forallb read_only_op ops = true ->
+  exists h' rs, vols_run g (im, fi, h) s ops = ((im, fi, h'), s, rs).
+Proof. exact vols_run_read_only. Qed.
+
+(* EVERY HISTORY of wrapped operations from a mount with status byte b ([vreach]: mount, then operations that leave the status
+   byte alone themselves, each with or without the mark): the invariant holds, bits 1-7 are always the mount byte's, the dirty
+   bit is on the device from the first marked operation on, and before it the byte is the mount byte *)
+Theorem C12_vol_reachable : forall g b dirty im s, vreach g b dirty im s ->
+  StatInv g im s /\ mount_byte s = b /\ img_get im (g_status_off g) / 4 = b / 4 /\
+  N.odd (img_get im (g_status_off g) / 2) = N.odd (b / 2) /\
+  (dirty = true -> N.odd (img_get im (g_status_off g)) = true /\ sf_dirty (current s) = true) /\
+  (dirty = false -> img_get im (g_status_off g) = b).
+Proof. exact vreach_inv. Qed.
+
+(* UNMOUNT restores the status byte EXACTLY, touches nothing else, and writes nothing after a history without a marked operation *)
+Theorem C12_vol_unmount_restores : forall g b dirty im s, vreach g b dirty im s ->
+  let im' := fst (vol_unmount g im s) in
+  img_get im' (g_status_off g) = b /\ status_only g im im' /\ (dirty = false -> im' = im).
+Proof. exact vol_unmount_restores. Qed.
+
+(* non-vacuity and the concrete picture, 64-sector FAT12 image: mount ; create "a.txt" ; 3 writes ; flush ; remove ; unmount.
+   Status byte after each stage, mounted clean / with reserved bits 0x84 / dirty; the final image is the image of the pipeline
+   without status byte, map for map; a refused create and reads / seeks change nothing *)
+Example C12_vol_example_hyps :
+  fixed_root_geom ex_g /\ fatsz16_set ex_vol_im /\ StatInv ex_g ex_vol_im (vol_mount_status ex_g ex_vol_im) /\
+  fatsz16_set ex_rm_im /\ StatInv ex_g ex_rm_im (vol_mount_status ex_g ex_rm_im).
+Proof. exact ex_status_hyps. Qed.
+Example C12_vol_example_clean_mount :
+  match ex_status_trace ex_vol_im, ex_plain ex_vol_im with
+  | Some (bytes, im5), Some im' => bytes = [0; 1; 1; 1; 1; 0] /\ img_eqb im5 im' = true
+  | _, _ => False
+  end.
+Proof. exact ex_status_clean_mount. Qed.
+Example C12_vol_example_reserved_bits :
+  match ex_status_trace (img_set ex_vol_im 37 132), ex_plain (img_set ex_vol_im 37 132) with
+  | Some (bytes, im5), Some im' => bytes = [132; 133; 133; 133; 133; 132] /\ img_eqb im5 im' = true
+  | _, _ => False
+  end.
+Proof. exact ex_status_reserved_bits. Qed.
+Example C12_vol_example_dirty_mount :
+  match ex_status_trace (img_set ex_vol_im 37 1) with
+  | Some (bytes, _) => bytes = [1; 1; 1; 1; 1; 1]
+  | None => False
+  end.
+Proof. exact ex_status_dirty_mount. Qed.
+
 Print Assumptions C12_dirty_after_structural.
 Print Assumptions C12_reachable_inv.
 Print Assumptions C12_unmount_restores.
 Print Assumptions C12_mount_bits_kept.
 Print Assumptions C12_classify_status_iff.
+Print Assumptions C12_vol_status_value.
+Print Assumptions C12_vol_set_dirty_flag.
+Print Assumptions C12_vol_mount_inv.
+Print Assumptions C12_vol_marked.
+Print Assumptions C12_vol_abs_ignores_status.
+Print Assumptions C12_vol_file_inv_ignores_status.
+Print Assumptions C12_vol_create.
+Print Assumptions C12_vol_remove_empty.
+Print Assumptions C12_vol_rename.
+Print Assumptions C12_vol_remove_file.
+Print Assumptions C12_vol_remove_file_failed.
+Print Assumptions C12_vol_step_unmarked.
+Print Assumptions C12_vol_file_step.
+Print Assumptions C12_vol_file_run.
+Print Assumptions C12_vol_session_step.
+Print Assumptions C12_vol_read_only_untouched.
+Print Assumptions C12_vol_reachable.
+Print Assumptions C12_vol_unmount_restores.
